@@ -418,10 +418,7 @@ func genC06(p *plan.Plan, r *plan.Rng, tier string) {
 	next := 0
 	id := func(prefix string) string { next++; return fmt.Sprintf("%s%d", prefix, next) }
 	idx := p.Index
-	depths := []int{1000, 10000, 10001, 100000, 1000000}
-	if tier != "quick" {
-		depths = append(depths, 10000000)
-	}
+	depths := []int{1000, 10000, 10001, 100000, 1000000, 10000000}
 	nb := len(depths) * 4
 	if idx < nb {
 		// nesting bombs into every entry point
